@@ -386,7 +386,14 @@ class Tr:
                 if v[0] != "var":
                     return ("const", op is ast.IsNot)       # a computed number is never None
                 flag = ("var", "isnone:" + v[1])
-                return ("cmp", "gt" if op is ast.Is else "le", flag, ("lit", 5, -1))
+                # one polarity per test: `x is None` is the negation of `x is not None`, so that `if x is None: B else: A` and
+                # `if x is not None: A else: B` give the same term (negations swap the branches when the conditional is lowered)
+                pos_ = ("cmp", "le", flag, ("lit", 5, -1))
+                return pos_ if op is ast.IsNot else ("not", pos_)
+            if op is ast.NotEq:
+                return ("not", ("cmp", "eq", self.expr(l, env, k), self.expr(r, env, k)))
+            if op is ast.NotIn:
+                return ("not", self.cond(ast.copy_location(ast.Compare(left=l, ops=[ast.In()], comparators=[r]), e), env, k))
             if op in CMP:
                 return ("cmp", CMP[op], self.expr(l, env, k), self.expr(r, env, k))
         if isinstance(e, ast.Name) and e.id in env and env[e.id][0] == "condterm":
